@@ -104,3 +104,40 @@ def nfa(c, st, sy):
 
 def wordc(w, sy):
     return nats(sy(a) for a in w)
+
+
+def csym(s, nm):
+    return '(%s, %d)' % ('true' if s[0] == 'V' else 'false', nm(s[1]))
+
+
+def cfg(c, nm):
+    """nm: one Names instance for all strings of the case (variables and terminals share the name space, as str equality does)"""
+    rid = c.get('rid') or list(range(len(c['R'])))
+    rules = lst('(mkRule %d %d %s)' % (nm(v), i, lst(csym(s, nm) for s in rhs)) for (v, rhs), i in zip(c['R'], rid))
+    return '(mkCFG %s %s %s %d)' % (nats(nm(v) for v in c['V']), nats(nm(t) for t in c['Sigma']), rules, nm(c['S']))
+
+
+def pda_names(c):
+    st = Names()
+    for q in c['Q']:
+        st(q)
+    sy = Names()
+    epscode = sy(('eps', c['eps']))
+    for a in list(c['Sigma']) + list(c['Gamma']):
+        sy(a)
+    f = lambda a: epscode if a == c['eps'] else sy(a)
+    return st, sy, f
+
+
+def pda(c, st, f):
+    groups = {}
+    for (p, a, u, q, v) in c['delta']:
+        groups.setdefault((p, a, u), []).append((q, v))
+    delta = lst(pair(pair(nat(st(p)), nat(f(a)), nat(f(u))), lst(pair(nat(st(q)), nat(f(v))) for (q, v) in tg)) for (p, a, u), tg in groups.items())
+    return '(mkPDA %s %s %s %s %d %s %d)' % (nats(st(q) for q in c['Q']), nats(f(a) for a in c['Sigma']), nats(f(a) for a in c['Gamma']), delta,
+                                             st(c['q0']), nats(st(q) for q in c['F']), f(c['eps']))
+
+
+def config(cfgn, st, f):
+    q, stack = cfgn
+    return pair(nat(st(q)), nats(f(x) for x in reversed(stack)))     # model keeps the top of the stack at the head
